@@ -27,38 +27,50 @@ def strata(tier, profile='full'):
     """Named lists of DSL trees for a tier.  Deterministic."""
     if profile == 'full':
         if tier == 'quick':
-            return (
+            return _with_leafless((
                 ('core<=4', tuple(map(_freeze, gen.core_trees(4)))),
                 ('singles', tuple(map(_freeze, gen.cell_singles(True)))),
                 ('pairs', tuple(map(_freeze, gen.cell_pairs(False)))),
-            )
-        return (
+            ))
+        return _with_leafless((
             ('core<=5', tuple(map(_freeze, gen.core_trees(5)))),
             ('singles', tuple(map(_freeze, gen.cell_singles(True)))),
             ('pairs', tuple(map(_freeze, gen.cell_pairs(True)))),
             ('triples', tuple(map(_freeze, gen.cell_triples('ends')))),
-        )
+            ))
     if profile == 'small':
         if tier == 'quick':
-            return (
+            return _with_leafless((
                 ('core<=3', tuple(map(_freeze, gen.core_trees(3)))),
                 ('singles', tuple(map(_freeze, gen.cell_singles(True)))),
                 ('pairs', tuple(map(_freeze, gen.cell_pairs(False)))),
-            )
-        return (
+            ))
+        return _with_leafless((
             ('core<=4', tuple(map(_freeze, gen.core_trees(4)))),
             ('singles', tuple(map(_freeze, gen.cell_singles(True)))),
             ('pairs', tuple(map(_freeze, gen.cell_pairs(True)))),
-        )
+            ))
+    if profile == 'medium':  # thorough tier of the pair / menu properties: deeper core, reduced variant product
+        if tier == 'quick':
+            return strata(tier, 'tiny')
+        return _with_leafless((
+            ('core<=4', tuple(map(_freeze, gen.core_trees(4)))),
+            ('singles', tuple(map(_freeze, gen.cell_singles(True)))),
+            ('pairs', tuple(map(_freeze, gen.cell_pairs(False)))),
+            ))
     if profile == 'tiny':
         if tier == 'quick':
-            return (
+            return _with_leafless((
                 ('core<=3', tuple(map(_freeze, gen.core_trees(3)))),
                 ('singles', tuple(map(_freeze, gen.cell_singles(True)))),
                 ('pairs-canonical', tuple(map(_freeze, gen.cell_pairs('canon')))),
-            )
+            ))
         return strata(tier, 'small')
     raise ValueError(profile)
+
+
+def _with_leafless(strata_tuple):
+    return (*strata_tuple, ('leafless-subtrees', tuple(gen.leafless_trees())))
 
 
 def _freeze(d):
@@ -101,7 +113,7 @@ def _tk(k):
     return k
 
 
-def drive(ctx, tier, per_case, profile='full', cfgs=None, checkpoint=True):
+def drive(ctx, tier, per_case, profile='full', cfgs=None, checkpoint=True, extra_strata=()):
     """Enumerate every (tree, config) of the tier for this shard; call per_case(tree, leaves, dsl,
     cfg, flat) inside the right dict-order mode.  `flat` is the reference flatten result."""
     U, _ = universe()
@@ -110,8 +122,19 @@ def drive(ctx, tier, per_case, profile='full', cfgs=None, checkpoint=True):
     for c in cfgs:
         by_mode.setdefault(c['mode'], []).append(c)
     index = 0
-    for name, trees in strata(tier, profile):
+    for name, trees in [*strata(tier, profile), *extra_strata]:
         ctx.extra[f'trees:{name}'] += 0
+        stratum_cfgs = None
+        if isinstance(trees, dict):  # {'trees': iterable-or-callable, 'cfgs': [...]} -- stratum with its own grid
+            stratum_cfgs = trees['cfgs']
+            trees = trees['trees']
+        if callable(trees):
+            trees = trees()
+        by_mode_here = by_mode
+        if stratum_cfgs is not None:
+            by_mode_here = {}
+            for c in stratum_cfgs:
+                by_mode_here.setdefault(c['mode'], []).append(c)
         for dsl in trees:
             index += 1
             if not ctx.mine(index):
@@ -122,7 +145,7 @@ def drive(ctx, tier, per_case, profile='full', cfgs=None, checkpoint=True):
                 ctx.checkpoint(index, {'tree': dsl})
             ctx.extra[f'trees:{name}'] += 1
             tree, leaves = gen.build(dsl, U)
-            for mode, cs in by_mode.items():
+            for mode, cs in by_mode_here.items():
                 with un.dict_mode(mode):
                     for cfg in cs:
                         try:
@@ -135,7 +158,7 @@ def drive(ctx, tier, per_case, profile='full', cfgs=None, checkpoint=True):
                                           f'{ctx.prop_id}:unexpected-exception:{type(ex).__name__}',
                                           {'tree': dsl, 'cfg': cfg}, traceback.format_exc()[-1500:])
             if len(ctx.samples) < 3 and gen.dsl_size(dsl) >= 4:
-                ctx.sample({'tree': gen.dsl_repr(dsl), 'configs': len(cfgs)})
+                ctx.sample({'tree': gen.dsl_repr(dsl), 'configs': len(stratum_cfgs or cfgs)})
 
 
 def replay_case(case, per_case):
@@ -190,3 +213,10 @@ def outcome_of(fn):
         return ('ok', fn())
     except Exception as ex:  # noqa: BLE001
         return ('exc', type(ex).__name__)
+
+
+def core6_stratum():
+    """Thorough-only: every tree with exactly 6 nodes over the core kinds (about 1.4 million), generated
+    lazily, on the reduced grid none_is_leaf x namespace (no predicate, sorted mode)."""
+    return ('core=6 (reduced grid)', {'trees': lambda: gen.core_exact_iter(6),
+                                     'cfgs': configs('thorough', predicates=['none'], modes=['sorted'])})
